@@ -1,6 +1,6 @@
 //! E1 driver side: run one case in a `shadowvm` subprocess and map its verdict.
 
-use crate::runner::Outcome;
+use crate::runner::{KnownFinding, Outcome};
 use crate::shadow::case::*;
 use std::io::{Read, Write};
 use std::process::{Command, Stdio};
@@ -77,14 +77,13 @@ pub fn run_case(case: &Case, timeout_s: u64) -> CaseResult {
 
 /// Map a case result to an outcome for `property`.  Violations of other
 /// properties are left to those properties' own checks.
-pub fn outcome_for(property: &str, also: &[&str], res: CaseResult, is_known: &dyn Fn(&str, &str) -> bool, nontrivial: &dyn Fn(&Verdict) -> (bool, Vec<&'static str>)) -> Outcome {
-    outcome_for_case(None, property, also, res, is_known, nontrivial)
-}
-
-/// `case`: when given, a crash of a case carrying the marker `__allow:<sig>` of a schedule-dependent
-/// known finding is attributed to that finding (only saved replay inputs carry such markers).
-pub fn outcome_for_case(case: Option<&Case>, property: &str, also: &[&str], res: CaseResult, is_known: &dyn Fn(&str, &str) -> bool, nontrivial: &dyn Fn(&Verdict) -> (bool, Vec<&'static str>)) -> Outcome {
-    let race_marker = case.and_then(|c| c.opts.iter().find(|(k, v)| k == "__allow" && v == "markcompact-nonmoving-double-release-race").map(|(_, v)| v.clone()));
+///
+/// Known findings are matched structurally: signature (for crashes the panic location) + plan.
+/// A crash of a saved input carrying the marker `__allow:<sig>` of a schedule-dependent known finding
+/// is attributed to that finding (only saved replay inputs carry such markers).
+pub fn outcome_for_case(case: &Case, property: &str, also: &[&str], res: CaseResult, known: &[KnownFinding], nontrivial: &dyn Fn(&Verdict) -> (bool, Vec<&'static str>)) -> Outcome {
+    let is_known = |viol_prop: &str, sig: &str| known.iter().any(|k| k.covers(property, viol_prop, sig, &case.plan));
+    let race_marker = case.opts.iter().find(|(k, v)| k == "__allow" && v == "markcompact-nonmoving-double-release-race").map(|(_, v)| v.clone());
     if let Some(sig) = &race_marker {
         let crashed = match &res {
             CaseResult::Crash { .. } => true,
@@ -104,7 +103,7 @@ pub fn outcome_for_case(case: Option<&Case>, property: &str, also: &[&str], res:
                     continue;
                 }
                 let sig = if viol.property == "CRASH" { crash_signature(&viol.detail) } else { viol.signature.clone() };
-                if is_known(&viol.property, &sig) || is_known(property, &sig) {
+                if is_known(&viol.property, &sig) {
                     return Outcome::Known { signature: sig, nontrivial: nt, labels };
                 }
                 return Outcome::Fail { msg: format!("[{}:{}] step {}: {}", viol.property, sig, viol.step, viol.detail) };
